@@ -65,6 +65,10 @@ func verifWriteGGUF(path string, tag string, blocks int, embedding bool) error {
 	if embedding {
 		kv["llama.pooling_type"] = uint32(1)
 	}
+	if strings.HasSuffix(tag, "+chatml") {
+		// a chat template the server recognises (template/index.json: chatml)
+		kv["tokenizer.chat_template"] = "{% for message in messages %}{{'<|im_start|>' + message['role'] + '\n' + message['content'] + '<|im_end|>' + '\n'}}{% endfor %}{% if add_generation_prompt %}{{ '<|im_start|>assistant\n' }}{% endif %}"
+	}
 	var ts []ggml.Tensor
 	for i := 0; i < blocks; i++ {
 		ts = append(ts, ggml.Tensor{Name: fmt.Sprintf("blk.%d.attn.weight", i), Kind: 0, Shape: []uint64{8}, WriterTo: bytes.NewReader(make([]byte, 32))})
